@@ -676,6 +676,11 @@ package device
 // ---- the LED loop (C16 reader side, C17). It is the only other user of eventProcessMutex and only READS what that mutex
 // guards (proved: `guardedreads` makes every read an obligation, a declared reader's writes are obligations that fail), so
 // the writer thread keeps its knowledge across Lock; the LED loop itself knows, after Lock, only the monitor invariant.
+// C17 frame content: the LED of the j-th key that plays (untransposed) pitch m in mapping mp shows colour c1 or c2, when that key has
+// an LED. raw(map, key) is the stored value without the "absent => zero" case split (used under has(): the LED loop itself only
+// ranges over the slice of a present pitch; an absent pitch gives an empty range)
+//@ pred ledAt(leds []openrgb.Color, mkm []map[byte][]evdev.EvCode, im map[evdev.EvCode]int, mp int, m byte, j int, c1 openrgb.Color, c2 openrgb.Color) :=
+//@   has(mkm[mp], m) && 0 <= j && j < len(raw(mkm[mp], m)) && has(im, raw(mkm[mp], m)[j]) ==> (leds[raw(im, raw(mkm[mp], m)[j])] == c1 || leds[raw(im, raw(mkm[mp], m)[j])] == c2)
 //@ ghost var ledFrames int
 //@ ghost var ledLastRed bool
 //@ lockreaders Device.eventProcessMutex: (*Device).handleOpenrgb
@@ -696,6 +701,19 @@ package device
 // C17 "on disconnect all LEDs turn red": if any frame was ever sent, the last one sent before the goroutine ends is all red
 //@   ghost entry ledFrames = 0
 //@   ensures [C17] ledFrames > 0 ==> ledLastRed
+// C17 frame content, layer "external, current channel": in every frame sent from inside the loop a key whose pitch sounds on MIDI
+// input on the current channel shows the external colour, unless it shows the active colour (the layer painted last, on top).
+// The quantified pitch m is the untransposed one (m + offset sounds), so that no arithmetic on a bound variable occurs in a pattern.
+//@   let cA := d.config.OpenRGB.Colors.Active
+//@   let cE := d.config.OpenRGB.Colors.ActiveExternal
+//@   loop 19 invariant [C17] forall m byte, j int :: visited(m + byte(offset)) ==> ledAt(ledArray, MidiKeyMappings, indexMap, d.mapping, m, j, cE, cE)
+//@   loop 20 invariant [C17] forall m byte, j int :: visitedIn(19, m + byte(offset)) && m != local(note, 3) ==> ledAt(ledArray, MidiKeyMappings, indexMap, d.mapping, m, j, cE, cE)
+// (the range is written as "j < last || j == last" so that the step's case split has an equality literal: the solvers do not
+//  derive j == last from two bit-vector comparisons fast enough)
+//@   loop 20 invariant [C17] forallp j int :: (j < idx() - 1 || j == idx() - 1) ==> ledAt(ledArray, MidiKeyMappings, indexMap, d.mapping, local(note, 3), j, cE, cE)
+//@   loop 21 invariant [C17] forall m byte, j int :: has(d.externalNoteTracker[d.channel], m + byte(offset)) ==> ledAt(ledArray, MidiKeyMappings, indexMap, d.mapping, m, j, cE, cA)
+//@   loop 22 invariant [C17] forall m byte, j int :: has(d.externalNoteTracker[d.channel], m + byte(offset)) ==> ledAt(ledArray, MidiKeyMappings, indexMap, d.mapping, m, j, cE, cA)
+//@   callassert (*openrgb-go.Client).UpdateLEDs [C17] locked[d.eventProcessMutex] ==> (forall m byte, j int :: has(d.externalNoteTracker[d.channel], m + byte(offset)) ==> ledAt(colors, MidiKeyMappings, indexMap, d.mapping, m, j, d.config.OpenRGB.Colors.ActiveExternal, d.config.OpenRGB.Colors.Active))
 //@   loop 23 invariant [C17] forallp j int :: 0 <= j && j < idx() ==> ledArray[j].Red == 255 && ledArray[j].Green == 0 && ledArray[j].Blue == 0
 //@   loop 1 invariant [C16] ledLk0(d, old(locked))
 //@   loop 2 invariant [C16] ledLk0(d, old(locked))
